@@ -474,5 +474,45 @@ class TTGen:
         return prog([decl('int', 'g0', I(0))], std + self.funcs), argv
 
 
+def rare_shape_program(rnd):
+    """Small programs in which defeat is used in exactly one unusual place, so that
+    whole-program conditions (no try/stop anywhere, no statement-level defeat call,
+    no preempt ...) can hold.  -> (prog, argv)"""
+    shape = rnd.randrange(7)
+    k = rnd.randrange(1, 4)
+    cond = bin_('>=', V('i'), V('lim'))
+    if shape == 0:      # defeat only in the continuation clause of a for loop
+        body = [('for', decl('int', 'i', I(0)), bin_('<', V('i'), I(k + 2)),
+                 ex(call('!truth_is_defeat', cond)), block(write(V('i')), aug('+', 'i', I(1))))]
+    elif shape == 1:    # defeat only inside a preempt block
+        body = [decl('int', 'i', I(0)), preempt(write(C('p')), ex(call('!truth_is_defeat', bin_('>', V('lim'), I(1))))),
+                write(V('i'))]
+    elif shape == 2:    # defeat only in an else branch
+        body = [decl('int', 'i', V('lim')), if_(bin_('<', V('i'), I(2)), block(write(C('s'))),
+                                                 block(ex(call('!is_defeat'))))]
+    elif shape == 3:    # defeat only through a nested call in an expression
+        body = [decl('int', 'i', call('!inner', V('lim'))), write(V('i'))]
+    elif shape == 4:    # a defeat function that never defeats
+        body = [decl('int', 'i', bin_('*', V('lim'), I(2))), write(V('i'))]
+    elif shape == 5:    # defeat in a while condition's operand
+        body = [decl('int', 'i', I(0)),
+                while_(bin_('<', V('i'), call('!inner', V('lim'))), aug('+', 'i', I(1)), write(V('i')))]
+    else:               # defeat behind a conditional return
+        body = [decl('int', 'i', V('lim')), if_(bin_('==', V('i'), I(1)), block(ret())), ex(call('!is_defeat'))]
+    fs = []
+    if shape in (3, 5):
+        fs.append(func('int', '!inner', [('int', 'a')],
+                       ex(call('!truth_is_defeat', bin_('>', V('a'), I(2)))), ret(bin_('+', V('a'), I(1)))))
+    fs.append(func('empty', '!only', [('int', 'lim')], *body))
+    kind = rnd.choice(('undo', 'undo', 'stop'))
+    main = func('empty', '@is_you', [('int', 'q')],
+                write(C('a')),
+                try_(block(write(C('t')), ex(call('!only', V('q'))), write(C('k'))), kind, block(write(C('h')))),
+                write(C('z')))
+    return prog([], fs + [main]), [str(rnd.randrange(0, 5))]
+
+
 def gen_tt_program(rnd, cfg):
+    if cfg.get('rare_shapes', True) and rnd.random() < 0.05:
+        return rare_shape_program(rnd)
     return TTGen(rnd, cfg).build()
